@@ -5,7 +5,7 @@ source map.  See DESIGN.md section 3.
 import os
 import re
 
-from extract import LostAnchor, locate, locate_macro, locate_struct, mask, match_brace, norm_ws
+from extract import LostAnchor, locate, locate_closure, locate_macro, locate_struct, mask, match_brace, norm_ws
 
 VERIF = os.path.dirname(os.path.dirname(os.path.abspath(__file__)))
 
@@ -405,6 +405,8 @@ class Unit:
                 else:
                     real = locate(repo_root, it.attrs['file'], it.attrs['fn'], it.attrs.get('block'),
                                   int(it.attrs['ordinal']) if 'ordinal' in it.attrs else None)
+                    if 'closure' in it.attrs:
+                        real = locate_closure(real, int(it.attrs['closure']))
                 it.real = real
                 if it.sig is not None and norm_ws(real['sig']) != it.sig:
                     raise LostAnchor('item %s: real signature changed: %r (expected %r)' % (it.id, norm_ws(real['sig']), it.sig))
